@@ -89,7 +89,10 @@ func alphabet(level string) []string {
 	// the caller of the next message gives up at its k-th kernel round-trip point
 	add("CANCEL:2")
 	if level != "core" {
-		add("CANCEL:1", "CANCEL:3", "CANCEL:4")
+		// Even points only (just before the caller waits for a reply: the kernel has not answered yet, so giving up
+		// is the only ready branch); at the odd points (just before a request is sent) both the send and the
+		// cancellation are ready and Go's select picks at random.
+		add("CANCEL:4", "CANCEL:6")
 	}
 	if level != "core" {
 		add("VZ:p:pkh", "VZ:c:pkh")
